@@ -10,5 +10,5 @@ CONSTANTS
 SPECIFICATION Spec
 CONSTRAINT Small
 INVARIANTS TargetOnly BroadcastReaches Bounded TreeUp
-PROPERTIES ReportOnlyToNamed NoDeliveryAfterRemove OncePerEvent
+PROPERTIES ReportOnlyToNamed NoDeliveryAfterRemove OncePerEvent OutageKeeps LostWhileDown
 CHECK_DEADLOCK FALSE
